@@ -247,6 +247,12 @@ fn agrees(p: usize, s: &str, rx: u32, a: &Result<Value, TemporalError>) -> bool 
     if rx & grammar::RX_LONG_FRACTION != 0 && !matches!(p, P_CALENDAR | P_TZSTR) {
         return false;
     }
+    // likewise the two time-only-string deviations (UTC designator, duplicate critical calendar with equal values) are
+    // those of the time-zone / calendar string parsers, which hand a time-only string to ixdtf unchecked; PlainTime and
+    // the other parsers validate these themselves, so for them the models explain nothing
+    if rx & (grammar::RX_TIME_Z | grammar::RX_TIME_DUP_CAL) != 0 && !matches!(p, P_CALENDAR | P_TZSTR) {
+        return false;
+    }
     match (reference(p, s, Opts { rx }).verdict, a) {
         (Verdict::Accept(v), Ok(w)) => values_match(&v, w),
         (Verdict::Reject, Err(e)) => e.kind() == ErrorKind::Range,
@@ -298,7 +304,7 @@ fn explain(p: usize, s: &str, a: &Result<Value, TemporalError>) -> Option<u32> {
     // deviation that applies to this parser switched on together
     let mut all = (1u32 << n) - 1;
     if !matches!(p, P_CALENDAR | P_TZSTR) {
-        all &= !grammar::RX_LONG_FRACTION;
+        all &= !(grammar::RX_LONG_FRACTION | grammar::RX_TIME_Z | grammar::RX_TIME_DUP_CAL);
     }
     if agrees(p, s, all, a) {
         return Some(all);
